@@ -157,6 +157,11 @@ fn string_alphabet(cur: &str) -> Vec<String> {
         v.push(std::iter::repeat('\u{e9}').take(n).collect::<String>());
         v.push((0..n).map(|i| ['A', '\0', '\u{a4}', '\u{e9}', '\u{ff}', '\u{100}', '\u{20ac}', '\u{1f600}'][i % 8]).collect::<String>());
     }
+    // Latin-1 texts whose byte values happen to form valid multi-byte UTF-8 (C3 BC, E2 82 AC, F0 9F 98 80)
+    for t in ["Z\u{c3}\u{bc}rich", "\u{c3}\u{bc}", "\u{e2}\u{82}\u{ac}", "a\u{f0}\u{9f}\u{98}\u{80}b", "\u{c2}\u{a4}\u{c3}\u{a9}\u{c3}\u{bf}"] {
+        v.push(t.to_string());
+        v.push(std::iter::repeat(t).take(8).collect::<String>().chars().take(31).collect());
+    }
     v.retain(|s| s != cur);
     v.dedup();
     v
